@@ -115,8 +115,8 @@ static void c03_gen(Tape &t, Case &c) {
   GenLP g;
   // unbounded answers cost the whole precision ladder: keep their share small
   static const int fam[] = {F_OPT, F_OPT, F_ILL, F_INF, F_FACE, F_SHAPE, F_RAND, F_CYC, F_OPT, F_ILL, F_INF, F_FACE, F_SHAPE, F_RAND,
-                            F_OPT, F_ILL, F_INF, F_CYC, F_RAND, F_UNB, F_COVER, F_COVER, F_FIXB, F_DUP};
-  gen_lp_family(t, o, fam[t.below(24)], g);
+                            F_OPT, F_ILL, F_INF, F_CYC, F_RAND, F_UNB, F_COVER, F_COVER, F_FIXB, F_DUP, F_COVER, F_COVER, F_COVER, F_COVER};
+  gen_lp_family(t, o, fam[t.below(28)], g);
   c.add_model(g.m);
   put_meta(c, g);
   c.ops.push_back(Op("route").I(t.below(R_NROUTES)));
